@@ -175,6 +175,14 @@ func genCase(t *rapid.T) Case {
 		if rapid.Bool().Draw(t, "expany") {
 			c.Exp = rapid.IntRange(-400, 400).Draw(t, "expv")
 		}
+	} else if tu := rapid.IntRange(0, 29).Draw(t, "tinyunit"); c.Thr.V() == 0 && (tu == 17 || tu < 10 && len(c.Pts) <= 64 && len(c.Burst) == 0) {
+		// (short lines mostly: the library decides these exactly, point by point)
+		// threshold zero asks which points lie exactly on a segment, and that has an
+		// answer in any unit: units so small that squares of distances (from 2^-538),
+		// then distances times lengths, are below the smallest float64 - every ordinate
+		// still a normal number, so none loses a bit
+		c.Exp = rapid.SampledFrom([]int{-990, -800, -600, -545, -538, -530, -450}).Draw(t, "tinyexp")
+		c.Shape += "+tinyunit"
 	}
 	return c
 }
